@@ -91,6 +91,11 @@ func VerifC10WriteSet() { verifWriteSet("C10.no-unsynchronised-global-write") }
 // report) cannot make a later call with the same inputs answer differently.
 func VerifC06NoHiddenState() { verifWriteSet("C06.no-hidden-state") }
 
+// VerifC02PrefixTableNotShared: the lemma once more, read for C02 - what a property path denotes is
+// fixed by the profile's own prefixes and the documented built-in ones: a compilation that wrote
+// into shared state (the prefix table, an expander) would change what later profiles' paths denote.
+func VerifC02PrefixTableNotShared() { verifWriteSet("C02.prefix-resolution-not-shared") }
+
 func verifWriteSet(label string) {
 	ep := v.Choice("entry", 4)
 	prof := verifProfilesC10[v.Choice("profile", len(verifProfilesC10))]
@@ -133,6 +138,53 @@ func VerifC10WriteSetNative() {
 	if _, asked := v.ReplayInput("debug"); asked {
 		debug = v.ReplayInt("debug") == 1
 	}
+	same := verifConcurrentEqualsAlone2(prof, debug)
+	v.Assert("C10.no-unsynchronised-global-write.reset", same)
+	v.Assert("C10.no-unsynchronised-global-write", same)
+}
+
+// VerifC06NoHiddenStateNative: a probe validation that relies on the built-in prefixes gives the
+// same report before and after the offending call ran in the same process.
+func VerifC06NoHiddenStateNative() {
+	const probeProfile = `#%Validation Profile 1.0
+profile: Probe
+violation:
+  - p1
+validations:
+  p1:
+    message: probe
+    targetClass: apiContract.EndPoint
+    propertyConstraints:
+      core.name:
+        minCount: 1
+      shacl.name:
+        maxCount: 0
+`
+	const probeData = `{"@id": "http://x/a", "@type": "http://a.ml/vocabularies/apiContract#EndPoint", "http://a.ml/vocabularies/core#name": "n"}`
+	label := "C06.no-hidden-state"
+	prof := verifProfilesC10[v.ReplayInt("profile")]
+	before, _ := ValidateWithConfiguration(probeProfile, probeData, false, nil, c.TestValidationConfiguration{}, c.DefaultReportConfiguration())
+	verifGuard(func() {
+		compiled, cerr := CompileProfile(prof, false, nil)
+		if cerr == nil {
+			ValidateCompiled(compiled, probeData, false, nil)
+		}
+	})
+	after, _ := ValidateWithConfiguration(probeProfile, probeData, false, nil, c.TestValidationConfiguration{}, c.DefaultReportConfiguration())
+	v.Assert(label, before == after)
+	// "... and any degree of concurrency": concurrent validations answer what the same call answers alone
+	same := verifConcurrentEqualsAlone(prof)
+	v.Assert(label, same)
+	v.Assert(label+".reset", same)
+}
+
+// verifConcurrentEqualsAlone: several goroutines compile and validate three profiles over and over;
+// every answer must equal the answer of the same call made alone.
+func verifConcurrentEqualsAlone(prof string) bool {
+	return verifConcurrentEqualsAlone2(prof, false) && verifConcurrentEqualsAlone2(prof, true)
+}
+
+func verifConcurrentEqualsAlone2(prof string, debug bool) bool {
 	// documents that fail the rich profile and the small one
 	data := `{"@graph": [{"@id": "http://x/a", "@type": ["http://a.ml/vocabularies/apiContract#EndPoint", "http://example.org/vocab#C", "http://example.org/vocab#D"], "http://example.org/vocab#items": {"@id": "http://x/b"}}, {"@id": "http://x/b", "http://example.org/vocab#a": "q"}]}`
 	profs := []string{prof, verifRichProfile, verifGoodProfile}
@@ -167,14 +219,13 @@ func VerifC10WriteSetNative() {
 		}(g)
 	}
 	wg.Wait()
-	v.Assert("C10.no-unsynchronised-global-write.reset", same)
-	v.Assert("C10.no-unsynchronised-global-write", same)
+	return same
 }
 
-// VerifC06NoHiddenStateNative: a probe validation that relies on the built-in prefixes gives the
-// same report before and after the offending call ran in the same process.
-func VerifC06NoHiddenStateNative() {
-	const probeProfile = `#%Validation Profile 1.0
+// VerifC02PrefixTableNotSharedNative: a probe profile using only built-in prefixes in its paths gives
+// the same report before and after the offending profile was compiled in the same process.
+func VerifC02PrefixTableNotSharedNative() {
+	const probe = `#%Validation Profile 1.0
 profile: Probe
 violation:
   - p1
@@ -183,21 +234,17 @@ validations:
     message: probe
     targetClass: apiContract.EndPoint
     propertyConstraints:
-      core.name:
+      core.name / core.name | catalog.tag:
         minCount: 1
-      shacl.name:
+      shacl.name^:
         maxCount: 0
 `
-	const probeData = `{"@id": "http://x/a", "@type": "http://a.ml/vocabularies/apiContract#EndPoint", "http://a.ml/vocabularies/core#name": "n"}`
-	label := "C06.no-hidden-state"
+	const data = `{"@graph": [{"@id": "http://x/a", "@type": "http://a.ml/vocabularies/apiContract#EndPoint", "http://anypoint.com/vocabs/digital-repository#tag": "t", "http://a.ml/vocabularies/core#name": {"@id": "http://x/b"}}, {"@id": "http://x/b", "http://a.ml/vocabularies/core#name": "n"}]}`
 	prof := verifProfilesC10[v.ReplayInt("profile")]
-	before, _ := ValidateWithConfiguration(probeProfile, probeData, false, nil, c.TestValidationConfiguration{}, c.DefaultReportConfiguration())
-	verifGuard(func() {
-		compiled, cerr := CompileProfile(prof, false, nil)
-		if cerr == nil {
-			ValidateCompiled(compiled, probeData, false, nil)
-		}
-	})
-	after, _ := ValidateWithConfiguration(probeProfile, probeData, false, nil, c.TestValidationConfiguration{}, c.DefaultReportConfiguration())
-	v.Assert(label, before == after)
+	before, _ := ValidateWithConfiguration(probe, data, false, nil, c.TestValidationConfiguration{}, c.DefaultReportConfiguration())
+	verifGuard(func() { CompileProfile(prof, false, nil) })
+	verifGuard(func() { CompileProfile(verifRichProfile, false, nil) })
+	after, _ := ValidateWithConfiguration(probe, data, false, nil, c.TestValidationConfiguration{}, c.DefaultReportConfiguration())
+	v.Assert("C02.prefix-resolution-not-shared", before == after && before != "")
+	v.Assert("C02.prefix-resolution-not-shared.reset", before == after)
 }
